@@ -33,7 +33,15 @@ LIMITS = ["float rounding of the matmul/reduce_sum and of the projection is outs
           "float32 layers: 1e-5 * max(1, |v|) in the Coq comparison and in the predicates)",
           "weighted average: a numerically-zero projected column (L1 norm < 1e-8) is outside the guarantee "
           "(guard of C20_projected_weighted_average, refuted witness C20_projected_weighted_average_zero_refuted, "
-          "known finding D32); such columns are generated and compared with the model but not held to the range",
+          "known finding D32); such columns are generated and compared with the model and held only to the degenerate "
+          "range of C20_projected_weighted_average_degenerate (|output - bias| <= L1 norm * clipped-input range)",
+          "monotonic-dominance EFFECT: false where the dominant input is clipped (saturated) at x_dom or x_dom + d "
+          "(C20_monotonic_dominance_effect_clipped_refuted, witness reproduced on the real layer: monotonicities "
+          "[1,1], dominance (0,1), input 0 bounded to [0,1], kernel (1,1), x=(1,0), d=1: dominant step 0, weak step "
+          "1); the guard `unclipped` is in every effect theorem; probes with a clipped dominant input are held to "
+          "C20_monotonic_dominance_effect_general (weak step <= k_dom * d, dominant step = k_dom * clipped "
+          "step; class tag mdomclipped) AND to the statement's own clause, whose failures there are reported as "
+          "known finding D73 (class monotonic_dominance_effect_dominant_clipped; one fixed witness case per run)",
           "normalization_order is modelled for None, 1 and 2 only; the code passes any other value (3, inf, 0.5, "
           "'euclidean', 0, ...) to tf.norm(ord=...) while the model treats every order other than 1 as the L2 norm, "
           "so other orders are not generated and nothing is claimed about them",
@@ -130,6 +138,7 @@ def gen_descs(ctx):
       d["W"] = [[v / 8.0 for v in row] for row in d["W"]]
       d["dtype"] = "float32"
     out.append(d)
+  out.append(d73_witness())
   return out
 
 
@@ -290,6 +299,41 @@ def gen_constrained(rng):
               lo_form=rng.choice(BOUND_FORMS), hi_form=rng.choice(BOUND_FORMS))
 
 
+D73_PREFIX = "monotonic dominance effect with the dominant input clipped:"
+
+
+def d73_witness():
+  """Known finding D73, fixed witness (C20_monotonic_dominance_effect_clipped_refuted): monotonicities [1, 1],
+  dominance (0, 1), input 0 bounded to [0, 1], kernel (1, 1) = its own projection, no bias, x = (1, 0), d = 1."""
+  return dict(kind="proj", n=2, units=1, monos=[1, 1], mdom=[[0, 1]], rdom=[], lo=[0.0, None], hi=[1.0, None],
+              norm=None, W=[[1.0], [1.0]], wclass="d73_witness", bias=None,
+              pts=[[[1.0, 0.0]], [[2.0, 0.0]], [[1.0, 1.0]]],
+              probes=[dict(type="mdom", dom=0, weak=1, d=1.0, pd=1, pw=2)], wavg=False, monos_scalar=None,
+              lo_form="list", hi_form="list")
+
+
+def _is_mdom_dominant_clipped(case):
+  """D73: a constrained-layer case whose ONLY failing clause is the monotonic-dominance effect on a probe whose
+  dominant coordinate is clipped (at x_dom or at x_dom + d) by the layer's own bounds in some unit; the clause string
+  is produced only when every other clause of the case (monotonicity, range dominance, weighted average, the weaker
+  bound 'weak step <= k_dom * d', 'dominant step = k_dom * clipped step') holds."""
+  d = case.desc
+  if d.get("kind") != "proj" or not (case.pred_fail or "").startswith(D73_PREFIX):
+    return False
+  for pr in d.get("probes", []):
+    if pr.get("type") != "mdom":
+      continue
+    dom, dd = pr["dom"], pr["d"]
+    for u in range(d["units"]):
+      xd = d["pts"][0][u][dom]
+      if _clip(xd, d["lo"][dom], d["hi"][dom]) != xd or _clip(xd + dd, d["lo"][dom], d["hi"][dom]) != xd + dd:
+        return True
+  return False
+
+
+KNOWN_CLASSES = {"monotonic_dominance_effect_dominant_clipped": _is_mdom_dominant_clipped}
+
+
 def form_class(d):
   """Histogram suffix: M<scalar> for a scalar monotonicities argument, Bt / Bs / Bts for tuple / 'none'-string bounds."""
   forms = set([d.get("lo_form", "list"), d.get("hi_form", "list")])
@@ -344,6 +388,7 @@ def eval_constrained(tf, tfl, d):
   scale = max(1.0, float(np.abs(y).max()))
   eps = rel * scale
   fail = None
+  known_fail = None
   pts = d["pts"]
   lo, hi = d["lo"], d["hi"]
   checked = set()
@@ -366,6 +411,27 @@ def eval_constrained(tf, tfl, d):
             fail = ("constrained layer: unit %d changes more along weak input %d (%r) than along dominant "
                     "input %d (%r) for the step %r" % (u, pr["weak"], ew, dom, ed, dd))
           checked.add("mdom")
+        else:
+          # dominant input clipped at x_dom or x_dom + d: the effect clause does not hold there
+          # (C20_monotonic_dominance_effect_clipped_refuted); what holds at EVERY point
+          # (C20_monotonic_dominance_effect_general): the weak step moves the output by at most k_dom * d, the
+          # dominant step by k_dom * (clip(x_dom + d) - clip(x_dom)), between 0 and k_dom * d
+          ed = outs[pr["pd"]][u] - outs[0][u]
+          ew = outs[pr["pw"]][u] - outs[0][u]
+          kd = float(R[dom, u])
+          cdiff = _clip(xd + dd, lo[dom], hi[dom]) - _clip(xd, lo[dom], hi[dom])
+          if ew > kd * dd + eps:
+            fail = ("constrained layer: unit %d changes more along weak input %d (%r) than the dominant weight "
+                    "%r times the step %r (dominant input %d clipped)" % (u, pr["weak"], ew, kd, dd, dom))
+          elif abs(ed - kd * cdiff) > eps * max(1.0, dd):
+            fail = ("constrained layer: unit %d changes by %r along the clipped dominant input %d, not by its weight "
+                    "%r times the clipped step %r" % (u, ed, dom, kd, cdiff))
+          elif ew > ed + eps and known_fail is None:
+            # the statement's own clause, which is FALSE here (known finding D73): kept in the stream
+            known_fail = ("%s unit %d changes more along weak input %d (%r) than along dominant input %d (%r) for "
+                          "the step %r; the dominant input goes from %r to %r under the bounds (%r, %r)" % (
+                              D73_PREFIX, u, pr["weak"], ew, dom, ed, dd, xd, xd + dd, lo[dom], hi[dom]))
+          checked.add("mdomclipped")
       elif pr["type"] == "rdom":
         ed = outs[pr["dh"]][u] - outs[pr["dl"]][u]
         ew = outs[pr["wh"]][u] - outs[pr["wl"]][u]
@@ -379,7 +445,17 @@ def eval_constrained(tf, tfl, d):
     for u in range(units):
       s = float(np.abs(R[:, u]).sum())
       if s < 1e-6:
-        zero_col = True   # outside the guard (numerically zero column is returned as it is)
+        # outside the guard (numerically zero column is returned as it is, known finding D32): not held to the
+        # weighted-average range, but to what C20_projected_weighted_average_degenerate states: the output minus
+        # the bias is between min * s and max * s of the clipped inputs, s = the column's L1 norm < 1e-8
+        zero_col = True
+        b = d["bias"][u] if d["bias"] is not None else 0.0
+        for p, o in zip(pts, outs):
+          cl = [_clip(p[u][i], lo[i], hi[i]) for i in range(n)]
+          if not (min(cl) * s - eps <= o[u] - b <= max(cl) * s + eps):
+            fail = ("constrained all-increasing layer with normalization_order=1 and a numerically-zero column "
+                    "(L1 norm %r): unit %d output minus bias %r is not within norm times [min %r, max %r] of the "
+                    "clipped inputs" % (s, u, o[u] - b, min(cl), max(cl)))
         continue
       b = d["bias"][u] if d["bias"] is not None else 0.0
       for p, o in zip(pts, outs):
@@ -388,6 +464,8 @@ def eval_constrained(tf, tfl, d):
           fail = ("constrained all-increasing layer with normalization_order=1: unit %d output minus bias %r is "
                   "not between min %r and max %r of the clipped inputs" % (u, o[u] - b, min(cl), max(cl)))
       checked.add("wavg")
+  if fail is None:
+    fail = known_fail   # only when every other clause holds
   cfg = "(mkLin %s %s %s %s %s %s)" % (
       czl(d["monos"]), cnatpairs(d["mdom"]), cnatpairs(d["rdom"]),
       clist([copt(v) for v in d["lo"]]), clist([copt(v) for v in d["hi"]]), cnat(d["norm"] or 0))
